@@ -59,6 +59,11 @@ use std::ops::{Index, IndexMut};
 use std::sync::atomic::{AtomicUsize, Ordering};
 use std::sync::{Arc, Mutex};
 
+// Verification hook (Kani builds with `uazu-stakker-verif` only): `std` is
+// seen through a facade whose AtomicUsize records its operations
+#[cfg(all(kani, not(test), feature = "uazu-stakker-verif"))]
+use crate::uazu_stakker_verif::vstd as std;
+
 type BoxFnMutCB = Box<dyn FnMut(&mut Stakker, bool) + 'static>;
 
 #[cfg(feature = "inter-thread")]
